@@ -578,7 +578,35 @@ def rule_votes_of_this_election(ctx, rule="R27f"):
            b.where, key="%s|%s|%s|stale-vote-counted" % (ctx.pid, rule, CL + "vote_received"))
 
 
+def rule_leader_term_is_vote_term(ctx, rule="R27g"):
+    """A candidate that wins with a vote leads the term that vote was granted for: where vote_received makes the node
+    Leader it also sets self.term to the term carried by the counted response.  (A vote granted for an earlier candidacy
+    must not elect the node for its newer term, in which the voter is still free to vote for someone else.)"""
+    fa = ctx.facts
+    b = fa.body(CL + "vote_received")
+    if b is None:
+        ctx.ob(rule, "anchor:vote_received", False, "mechanism `Cluster::vote_received` not found",
+               key="%s|%s|missing-anchor|vote_received" % (ctx.pid, rule))
+        return
+    leader = [bi for bi, s in cfg.assigns(b) if s["r"]["k"] == "agg" and s["r"].get("adt", "").endswith("ClusterState") and
+              s["r"].get("variant") == "Leader"]
+    term_set = []
+    for bi, s in cfg.assigns(b):
+        if s["l"][0] == 1 and [e for e in s["l"][1:] if e != "*"] == [".term"]:
+            src = cfg.op_origin(b, s["r"]["o"]) if s["r"]["k"] in ("use", "cast") else None
+            if src and 1 < src[0] <= b.d["argc"] and src[1] and src[1][-1] == ".term":
+                term_set.append(bi)
+    ok = bool(leader) and bool(term_set) and all(
+        cfg.find_path(b, [0], [l], avoid=term_set) is None or cfg.find_path(b, [l], cfg.return_blocks(b), avoid=term_set) is None
+        for l in leader)
+    ctx.ob(rule, "vote_received:leader-term", ok,
+           "becoming Leader is accompanied by `self.term = <response>.term` on every path" if ok else
+           "vote_received makes the node Leader without adopting the term of the counted vote: a vote granted for an "
+           "earlier candidacy elects it for a newer term in which the voter may still vote for another node", b.where)
+
+
 def run(ctx):
+    rule_leader_term_is_vote_term(ctx)
     rule_grant_dominated(ctx, "R27a", ["validate_hash", "validate_vote_state", "validate_term_for_vote", "validate_log_for_vote"])
     rule_reject_tables(ctx)
     rule_majority(ctx)
